@@ -1,7 +1,8 @@
 // Appended to src/expression.rs of a scratch copy (never to /repo).  The postconditions are asserted by plain #[kani::proof]
 // harnesses around the REAL functions (Kani's proof_for_contract instrumentation made the same obligations 10-30x slower here:
 // measured > 400 s against 17 s for find_operator).  Integer operands of apply_operator are NOT covered: the symbolic
-// i64 -> f64 conversion followed by fract()/`as i64` did not finish in 300 s per harness.
+// i64 -> f64 conversion followed by fract()/`as i64` did not finish in 300 s per harness; neither are non-numeric operands (the
+// error path builds and drops a RuleEngineError, whose io::Error variant's drop glue did not finish in 11 min under CBMC).
 //  * find_operator: the caller (evaluate_expression) slices `expr[..p]`, `expr[p..p+1]`, `expr[p+1..]` with the result, so the
 //    contract is "a returned offset is sliceable": p < len and p, p+1 are char boundaries.  Inputs: every valid UTF-8 string of
 //    at most N bytes (N in the harness name) => BOUNDED by N, unwinding assertions on.
@@ -60,21 +61,10 @@ pub mod verif_kani_expression {
         };
     }
     apply_op!(apply_add_num_num, "+", 0, 0);
-    apply_op!(apply_add_null_num, "+", 2, 0);
     apply_op!(apply_sub_num_num, "-", 0, 0);
-    apply_op!(apply_sub_num_null, "-", 0, 2);
     apply_op!(apply_mul_num_num, "*", 0, 0);
-    apply_op!(apply_mul_null_null, "*", 2, 2);
     apply_op!(apply_div_num_num, "/", 0, 0);
     apply_op!(apply_rem_num_num, "%", 0, 0);
-    apply_op!(apply_rem_num_null, "%", 0, 2);
-    apply_op!(apply_add_num_null, "+", 0, 2);
-    apply_op!(apply_add_null_null, "+", 2, 2);
-    apply_op!(apply_sub_null_null, "-", 2, 2);
-    apply_op!(apply_div_num_null, "/", 0, 2);
-    apply_op!(apply_div_null_num, "/", 2, 0);
-    apply_op!(apply_rem_null_null, "%", 2, 2);
     apply_op!(apply_unknown_op_num_num, "^", 0, 0);
-    apply_op!(apply_unknown_op_null_num, "^", 2, 0);
 }
 
